@@ -457,8 +457,15 @@ package eval
 
 //@ func parser.parseList.$1 C06 C15 C17
 //@   requires [parser] (and (PARSER $p) (<= 0 (fld $p idx)) (< (fld $p idx) (len (fld $p tokens))))
+//@   ensures [list-node] (=> (not (= $ret0 0)) (and (= $ret1 ENil) (= (KIND (fld $ret0 node)) 1)))
+//@   ensures [int-list-iff-first-is-integer] (=> (not (= $ret0 0)) (= (is.slice_int64 (fld (fld $ret0 node) value)) (= (fld (idx (old (fld $p tokens)) (+ (old (fld $p idx)) 1)) typ) "integer")))
+//@   ensures [string-list-otherwise] (=> (not (= $ret0 0)) (= (is.slice_string (fld (fld $ret0 node) value)) (not (= (fld (idx (old (fld $p tokens)) (+ (old (fld $p idx)) 1)) typ) "integer"))))
+//@   ensures [empty-list-is-empty-string-list] (=> (and (not (= $ret0 0)) (not (= $rightType "integer")) (= (fld (idx (old (fld $p tokens)) (+ (old (fld $p idx)) 1)) typ) $rightType))
+//@        (= (len (p_slice_string (fld (fld $ret0 node) value))) 0))
 //@   loop 1 (j)
-//@     invariant [range] (>= $j 1)
+//@     invariant [range] (and (>= $j 1) (>= $j (+ (old (fld $p idx)) 1)))
+//@     invariant [nothing-collected-before-the-first-element] (=> (= $j (+ (old (fld $p idx)) 1)) (= (len $strs) 0))
+//@     invariant [closing-bracket-first-stops-at-once] (=> (= (fld (idx (old (fld $p tokens)) (+ (old (fld $p idx)) 1)) typ) $rightType) (= $j (+ (old (fld $p idx)) 1)))
 //@     decreases (- (len $T) $j)
 
 //@ func parser.parseInfixExpression.buildTopOperators C06 C15
